@@ -68,7 +68,9 @@ def inst_src(t, inst):
 
 def twin_src(t, inst):
     b = inst['b']
-    classes = ((t['cls'] or '').split() + (inst['cls'] or '').split() + [t['id']])
+    # the reuse element's own classes are evaluated where it stands (outer bindings), not under the bindings it makes for the template
+    icls = (inst['cls'] or '').replace('${w}', str(inst['outer_w'])).replace('$w', str(inst['outer_w']))
+    classes = ((t['cls'] or '').split() + icls.split() + [t['id']])
     cl = []
     for c in classes:
         if c not in cl: cl.append(c)
@@ -120,7 +122,7 @@ def run(ctx):
     cases = []; pairs = []
     for i in range(n):
         t = tpl_group(rng, 't%d' % i) if rng.chance(0.35) else tpl_shape(rng, 't%d' % i)
-        place = rng.choice(['specs', 'specs', 'defs', 'specs-after'] + (['inline', 'defs'] if t['group'] else []))
+        place = rng.choice(['specs', 'specs', 'defs', 'specs-after', 'specs-nested'] + (['inline', 'defs'] if t['group'] else []))
         if rng.chance(0.2):         # a template whose id is computed: it is found under the evaluated id
             t['idsrc'] = t['id'] + rng.choice(['_$kk', '_${kk}', '_{{3 + 4}}']); t['id'] = t['id'] + '_7'
         insts = []
@@ -133,10 +135,11 @@ def run(ctx):
             insts.append({'id': ('i%d_%d' % (i, j)) if rng.chance(0.4) else None,
                           'xy': xy, 'only': only if xy else None, 'href_computed': 'idsrc' in t and rng.chance(0.4),
                           'b': {'w': rng.range(1, 12), 'h': rng.range(1, 12), 'label': rng.choice(['hi', 'A1', 'x y', 'Z'])},
-                          'cls': rng.choice([None, 'rc', 'rc d-red']), 'style': rng.choice([None, None, 'fill:red']),
+                          'cls': rng.choice([None, 'rc', 'rc d-red', 'kc-$w', 'rc kc-${w}']), 'style': rng.choice([None, None, 'fill:red']),
                           'omit': set(rng.sample(['w', 'h', 'label'], rng.range(0, 2))) if rng.chance(0.4) else set()})
         outer = {'w': rng.range(1, 12), 'h': rng.range(1, 12), 'label': 'outer'}
         for inst in insts:
+            inst['outer_w'] = outer['w']
             for k in inst['omit']:
                 inst['b'][k] = outer[k]
         filler = ['<rect xy="50 50" wh="3"/>', '<text xy="60 0" text="probe $w $h $label"/>', '']
@@ -147,7 +150,8 @@ def run(ctx):
         tsrc = tpl_src(t)
         ovar = '<var w="%d" h="%d" label="outer" kk="7"/>' % (outer['w'], outer['h'])
         late = '<rect id="late" xy="70 70" wh="2"/>'
-        wrap = {'specs': '<specs>%s</specs>', 'defs': '<defs>%s</defs>', 'specs-after': '<specs>%s</specs>', 'inline': '%s'}[place] % tsrc
+        wrap = {'specs': '<specs>%s</specs>', 'defs': '<defs>%s</defs>', 'specs-after': '<specs>%s</specs>', 'inline': '%s',
+                'specs-nested': '<specs><g id="kit' + str(i) + '"><rect wh="1"/>%s</g></specs>'}[place] % tsrc      # a template inside a group of <specs> is referencable too
         # the twin keeps the template where it was (it is not rendered in specs; in defs it is emitted by both)
         if place == 'specs-after':
             p = '<svg>%s%s%s%s</svg>' % (ovar, ''.join(prog), wrap, late); u = '<svg>%s%s%s%s</svg>' % (ovar, ''.join(twin), wrap, late)
